@@ -4,6 +4,7 @@ import (
 	"go/constant"
 	"go/token"
 	"go/types"
+	"sync"
 
 	"golang.org/x/tools/go/ssa"
 )
@@ -217,7 +218,11 @@ func cellReach(f *ssa.Function, a *ssa.Alloc) map[*ssa.BasicBlock]map[ssa.Value]
 
 var zeroConsts = map[string]*ssa.Const{}
 
+var zeroConstsMu sync.Mutex
+
 func zeroValueOf(t types.Type) ssa.Value {
+	zeroConstsMu.Lock()
+	defer zeroConstsMu.Unlock()
 	k := types.TypeString(t, nil)
 	if c, ok := zeroConsts[k]; ok {
 		return c
